@@ -157,16 +157,16 @@ def run(ctx):
     # ---- inputs ---------------------------------------------------------------------
     texts = []
     checked_pools()
-    progs = sqlprog.programs(ctx, 200 if quick else 5000, 'C07_progs', seed=ctx.seed * 7 + 5)
+    progs = sqlprog.programs(ctx, 200 if quick else 2500, 'C07_progs', seed=ctx.seed * 7 + 5)
     for p in progs:
         for _ in range(2):
             fp = FlatProg(mutate(p, rng))
             texts.append(sqlprog.spell(fp, rng, gaps=rng.choice(['blank', 'ws', 'cmt']), tight=rng.random() < 0.4).text)
-    junk = splitfam.emit_scripts(ctx, ['junk'], 2, 'C07_junk', simulate=400 if quick else 8000, maxlen=14, softlen=12, minlen=1, seed=ctx.seed + 9)
+    junk = splitfam.emit_scripts(ctx, ['junk'], 2, 'C07_junk', simulate=400 if quick else 5000, maxlen=14, softlen=12, minlen=1, seed=ctx.seed + 9)
     texts += [spell(s['hist'], rng) for s in junk]
     texts += [t for t, _, _ in treefam.tag_inputs(ctx, True, rng)][::7 if quick else 2]
     texts += list(sigma_strings(SIGMA_QUICK, 2))
-    texts += [random_unicode(rng, 40) for _ in range(300 if quick else 6000)]
+    texts += [random_unicode(rng, 40) for _ in range(300 if quick else 4000)]
     for t in texts:
         add('parse', t, None)
         add('split', t, None, sweep=False)
